@@ -49,6 +49,9 @@ impl Parse for Input {
         // BUG (In theory): missing and "auto" traits
         if input.peek(syn::token::Trait) {
             let item_trait: syn::ItemTrait = input.parse()?;
+            // the inner attributes (`#![..]`, `//!`) of the trait body were parsed along with it
+            let mut attrs = attrs;
+            attrs.extend(item_trait.attrs.iter().cloned());
 
             Ok(Input::Trait(syn::ItemTrait {
                 attrs,
